@@ -6,6 +6,7 @@
 //!   nreal boxcar <capacity> <items>
 //!   nreal nucleo <capacity> <items>
 //!   nreal sort   <len> <threads>
+//!   nreal eventloop <items per round> <rounds>
 use std::sync::atomic::Ordering as O;
 use std::sync::Arc;
 
@@ -140,6 +141,74 @@ fn nucleo(capacity: u32, items: u32) {
     println!("nucleo ok: {ticks} ticks, {} notifications", notified.load(O::Relaxed));
 }
 
+/// An event loop that only ticks after its own edit or when notified (property C13). A tick that
+/// reported `running` and is not followed by a notification within 5 (virtual) seconds is a lost
+/// wake-up. Rounds keep the worker busy while ticks with timeout 0 race with its completion.
+fn eventloop(items: u32, rounds: u32) {
+    let count = Arc::new(std::sync::atomic::AtomicU32::new(0));
+    let ui = std::thread::current();
+    let (c2, ui2) = (count.clone(), ui.clone());
+    let mut n: Nucleo<u32> = Nucleo::new(
+        Config::DEFAULT,
+        Arc::new(move || {
+            c2.fetch_add(1, O::SeqCst);
+            ui2.unpark();
+        }),
+        Some(1),
+        1,
+    );
+    let inj = n.injector();
+    let mut waits = 0u32;
+    let mut total = 0u32;
+    // get the initial (cancelled) tick out of the way
+    while n.tick(10).running {}
+    for r in 0..rounds {
+        // a push notifies: the event loop ticks; the tick starts a run and reports running
+        let mut seen = count.load(O::SeqCst);
+        for i in 0..items {
+            inj.push(r * 1000 + i, |v, c| c[0] = format!("a{v}").as_str().into());
+            total += 1;
+        }
+        assert!(count.load(O::SeqCst) > seen, "push must notify");
+        seen = count.load(O::SeqCst);
+        let mut st = n.tick(0);
+        // vary the phase between the worker and the next tick a little
+        for _ in 0..(r % 8) {
+            std::thread::yield_now();
+        }
+        // another push arrives while the run is (about to be) finished: its notification makes
+        // the loop tick again, racing with the completion of the run
+        inj.push(r * 1000 + 999, |v, c| c[0] = format!("a{v}").as_str().into());
+        total += 1;
+        let mut guard = 0;
+        loop {
+            if st.running || count.load(O::SeqCst) != seen {
+                if count.load(O::SeqCst) == seen {
+                    // `running` was reported and nothing has notified since: wait for it
+                    let deadline = std::time::Instant::now() + std::time::Duration::from_secs(5);
+                    while count.load(O::SeqCst) == seen {
+                        let now = std::time::Instant::now();
+                        if now >= deadline {
+                            let probe = n.tick(0);
+                            panic!("LOST WAKE-UP in round {r}: tick reported running, no notification for 5 s; an unprompted tick now returns {probe:?}");
+                        }
+                        std::thread::park_timeout(deadline - now);
+                    }
+                    waits += 1;
+                }
+                seen = count.load(O::SeqCst);
+                st = n.tick(0);
+            } else {
+                break;
+            }
+            guard += 1;
+            assert!(guard < 10_000, "event loop does not converge");
+        }
+        assert_eq!(n.snapshot().item_count(), total);
+    }
+    println!("eventloop ok: {rounds} rounds, {waits} waits, {} notifications", count.load(O::SeqCst));
+}
+
 fn sort(len: u32, threads: usize) {
     let pool = rayon::ThreadPoolBuilder::new().num_threads(threads).build().unwrap();
     let mut x = 12345u64;
@@ -178,6 +247,7 @@ fn main() {
         Some("boxcar") => boxcar(num(2, 1), num(3, 40)),
         Some("nucleo") => nucleo(num(2, 1), num(3, 30)),
         Some("sort") => sort(num(2, 4100), num(3, 2) as usize),
+        Some("eventloop") => eventloop(num(2, 1), num(3, 40)),
         _ => {
             eprintln!("usage: nreal boxcar|nucleo|sort ...");
             std::process::exit(2)
